@@ -409,12 +409,19 @@ fn gen_cancel(rng: &mut Rng) -> Cancel {
 }
 
 /// Draw a history. `max_len` bounds the number of operations.
-pub fn gen_hist(rng: &mut Rng, max_len: usize) -> HistSc {
+pub fn gen_hist(rng: &mut Rng, max_len: usize) -> HistSc { gen_hist_with(rng, max_len, true) }
+
+/// `giant_allowed`: C14 rebuilds every checkpointed object by ten routes and compares pools of
+/// copies, which is quadratic work on a 70 000-entry object; its histories stop at the large profile.
+pub fn gen_hist_with(rng: &mut Rng, max_len: usize, giant_allowed: bool) -> HistSc {
     // profiles: 1/400 grow-then-drain (the index grows to 128..512 buckets and is then emptied
     // entry by entry), 3/400 very large objects (1000..2600 entries), otherwise ordinary
     let profile = rng.below(400);
     let drain = profile == 0;
-    let large = (1..=3).contains(&profile);
+    // one history in 4000 is *giant*: 4096..70000 entries in one bulk operation (size thresholds of
+    // the library at 2^12, 2^13, 2^16 entries), then a sort half of the time and very few operations
+    let giant = profile == 4 && rng.chance(1, 10) && giant_allowed;
+    let large = (1..=3).contains(&profile) || giant;
     let forced = if drain { Some(rng.urange(60, 300)) } else if large { Some(rng.urange(100, 1500)) } else { None };
     let uni = gen_universe(rng, forced);
     let hash_mode = if rng.chance(1, 2) { "good" } else { *rng.pick(&HASH_MODES) }.to_string();
@@ -424,14 +431,15 @@ pub fn gen_hist(rng: &mut Rng, max_len: usize) -> HistSc {
     // keep the object growing on average: pushes stay enabled
     w[0] = w[0].max(4);
     w[23] = w[23].min(1); // `fresh` (reset) rarely
-    let len = if large { rng.urange(1, 6) } else if uni.len() >= 100 || drain { rng.urange(1, 16) } else if rng.chance(1, 10) { rng.urange(1, max_len) } else { rng.urange(1, max_len.min(24)) };
+    let len = if giant { rng.urange(1, 3) } else if large { rng.urange(1, 6) } else if uni.len() >= 100 || drain { rng.urange(1, 16) } else if rng.chance(1, 10) { rng.urange(1, max_len) } else { rng.urange(1, max_len.min(24)) };
     let regs = if rng.chance(1, 2) { 1 } else { REGISTERS };
     let mut ops = Vec::with_capacity(len);
     if uni.len() >= 100 || drain {
         // bulk start so that the index is large from the first step
-        let n = if large { rng.urange(1000, 2600) } else if drain { uni.len() + rng.urange(0, uni.len() / 3) } else { rng.urange(uni.len() / 2, uni.len() + 40) };
+        let n = if giant { *rng.pick(&[4096usize, 4097, 5000, 8191, 8192, 9000, 20_000, 65_536, 70_000]) } else if large { rng.urange(1000, 2600) } else if drain { uni.len() + rng.urange(0, uni.len() / 3) } else { rng.urange(uni.len() / 2, uni.len() + 40) };
         let es: Vec<(String, V)> = (0..n).map(|i| (if drain && i < uni.len() { uni[i].clone() } else { rng.pick(&uni).clone() }, if rng.chance(1, 4) { gen_v(rng, 1) } else { V::Null })).collect();
         ops.push(match rng.below(3) { 0 => Op::FromVec { r: 0, es }, 1 => Op::ExtendEntries { r: 0, es }, _ => Op::FromParse { r: 0, es } });
+        if giant && rng.chance(1, 2) { ops.push(Op::Sort { r: 0 }); }
         if drain {
             // empty the object again, entry by entry, from one end, the middle, or key by key
             let mut left = n;
